@@ -1190,7 +1190,12 @@ impl CaseExpr {
             )
         })?;
 
-        if when_value.null_count() == 0 && !when_value.has_false() {
+        if batch.num_rows() == 0 {
+            // No row selects either branch, so neither may be evaluated: it could
+            // raise an error that does not depend on the rows (e.g. `1 / 0`)
+            let return_type = self.data_type(&batch.schema())?;
+            Ok(ColumnarValue::Array(new_empty_array(&return_type)))
+        } else if when_value.null_count() == 0 && !when_value.has_false() {
             // All input rows are true, just call the 'then' expression
             self.body.when_then_expr[0].1.evaluate(batch)
         } else if !when_value.has_true() {
